@@ -168,6 +168,8 @@ func (o Op) String() string {
 		return fmt.Sprintf("Cancel(h%d)", o.H)
 	case "Reads":
 		return "Reads(every query of the sweep)"
+	case "BackdoorDeleteManifest":
+		return fmt.Sprintf("DeleteManifest(%s,m%d) made directly on the underlying registry", o.Repo, o.M)
 	}
 	return o.K
 }
